@@ -22,6 +22,9 @@ RULE = ("all words over {ND,a,b,c} of length 3..bound (trie); non-trivial = word
 ASSUMPTIONS = [
     "values compared to 1e-6 absolute (float32 output of the cube drivers: 1e-6 relative to 1)",
     "the reference is evaluated from exact integer sums; only the final square root is float64",
+    "float records with decimal-fraction values (family fractional_floats): compared to 2e-5 absolute - the kernel's single-pass "
+    "float sums leave a rounding residue where integer-valued data is exact (measured: up to 7.6e-6 on 900-step records) - "
+    "and required to be finite and inside [-1, 1]",
 ]
 
 TOL = 2e-6
@@ -113,19 +116,19 @@ def check_words(vals, valid, nd, p, sub, full=True):
     if full:
         # (t,y,x) driver
         got2 = np.asarray(o.autocorr_tyx(np.ascontiguousarray(v16.T.reshape(n, N, 1)), nd)).reshape(N).astype(np.float64)
-        d = np.abs(got2 - got) > TOL
+        d = ~(np.abs(got2 - got) <= TOL)
         for j in np.nonzero(d)[0][:3]:
             p.violation(sub, dict(key(j), what="tyx"), case(j), f"autocorr_tyx gives {got2[j]:.6f} but autocorr gives {got[j]:.6f} for {vals[j].tolist()}")
         # float / NaN encoding
         vf = np.where(valid, vals, np.nan).astype(np.float64)
         got3 = np.asarray(o.autocorr(vf.reshape(N, 1, n))).reshape(N).astype(np.float64)
-        d = np.abs(got3 - got) > TOL
+        d = ~(np.abs(got3 - got) <= TOL)
         for j in np.nonzero(d)[0][:3]:
             p.violation(sub, dict(key(j), what="float/NaN"), case(j),
                         f"float/NaN encoding gives {got3[j]:.6f} but int/nodata gives {got[j]:.6f} for {vals[j].tolist()}")
         vf32 = vf.astype(np.float32)
         got4 = np.asarray(o.autocorr_tyx(np.ascontiguousarray(vf32.T.reshape(n, N, 1)))).reshape(N).astype(np.float64)
-        d = np.abs(got4 - ref) > 1e-5
+        d = ~(np.abs(got4 - ref) <= 1e-5)
         for j in np.nonzero(d)[0][:3]:
             p.violation(sub, dict(key(j), what="float32/NaN tyx"), case(j),
                         f"float32/NaN (t,y,x) gives {got4[j]:.6f}, reference {ref[j]:.6f} for {vals[j].tolist()}")
@@ -203,6 +206,62 @@ def plateaus(ctx, nd):
     ctx.sample(sub, {"levels": [10000, 30000, 32000], "lengths": [30, 100, 900], "bumps": "1, 2, 3 or 5 cells one count higher"})
 
 
+FTOL = 2e-5
+
+
+def fractional_floats(ctx):
+    """Float / NaN records whose values are decimal fractions (0.2051, 0.7257, ...: not exactly representable, so
+    the running sums carry rounding residue where integer-valued data is exact).  (a) every word of length 3..bound
+    over {NaN, 0.2051, 0.7257, 0.5, 0.3333}, float64 and float32, both drivers; the reference is the exact one on the
+    words scaled by 10^4 (the correlation is scale-free; which vectors are flat is the same question).  (b) records
+    that are flat after their first sample - the lag vector has no variance - for lengths up to 900, with gaps, on
+    levels up to the int16 range: the result must be 0 to FTOL, finite and inside [-1, 1]."""
+    o = _ops()
+    sub = "fractional_floats"
+    letters = [2051, 7257, 5000, 3333]
+    maxn = 7 if ctx.thorough() else 6
+    for n in range(3, maxn + 1):
+        idx = sse.word_indices(5, n)
+        ints = sse.render(idx, [0] + letters).astype(np.int64)
+        valid = idx != 0
+        ref, ok = ref_autocorr_fast(ints, valid)
+        N = idx.shape[0]
+        for dt in ("float64", "float32"):
+            vf = np.where(valid, ints / 10000.0, np.nan).astype(dt)
+            outs = {"autocorr": np.asarray(o.autocorr(vf.reshape(N, 1, n))).reshape(N).astype(np.float64),
+                    "autocorr_tyx": np.asarray(o.autocorr_tyx(np.ascontiguousarray(vf.T.reshape(n, N, 1)))).reshape(N).astype(np.float64)}
+            for nm, got in outs.items():
+                bad = ~(np.abs(got - ref) <= FTOL) | ~(np.abs(got) <= 1 + 1e-6)
+                ctx.count(sub, evaluations=N, states=N, traces_validated_against_impl=N, nontrivial=int((ok & ~valid.all(1)).sum()))
+                for j in np.nonzero(bad)[0][:3]:
+                    w = [None if not v else float(x) for x, v in zip(vf[j].tolist(), valid[j])]
+                    ctx.violation(sub, {"kernel": nm, "dtype": dt, "word": w}, {"kind": "frac"},
+                                  f"{nm}({dt} {w}) -> {got[j]!r}, mean-filled Pearson reference {ref[j]:.6f}")
+    rows = []
+    for n in (3, 4, 5, 8, 30, 100, 900):
+        for a in (0.0, 0.5, 0.1234, 0.9999, 7.0, 1234.5678, -3000.7, 32767.0):
+            for c in (0.2051, 0.7257, 0.0301, 3.3, 100.1, 10000.2051, 32000.9, -0.3):
+                for gap in (None, (2, 4), (n // 2, n // 2 + 3)):
+                    if gap and (n < 8 or gap[1] >= n):
+                        continue
+                    x = np.full(n, c)
+                    x[0] = a
+                    if gap:
+                        x[gap[0]:gap[1]] = np.nan
+                    rows.append(x)
+    for x in rows:
+        for dt in ("float64", "float32"):
+            xx = x.astype(dt)
+            got = float(o.autocorr_1d(xx))
+            ctx.count(sub, evaluations=1, states=1, traces_validated_against_impl=1, nontrivial=1)
+            if not (abs(got) <= FTOL):
+                ctx.violation(sub, {"kernel": "autocorr_1d", "dtype": dt, "n": len(x), "first": float(x[0]), "level": float(x[1]), "gaps": int(np.isnan(x).sum())},
+                              {"kind": "frac"},
+                              f"autocorr_1d({dt} record of {len(x)} steps: first sample {x[0]}, then constant {x[1]}, {int(np.isnan(x).sum())} missing) -> {got!r}; "
+                              f"the lag vector has no variance, 0 is required")
+    ctx.sample(sub, {"alphabet": [None, 0.2051, 0.7257, 0.5, 0.3333], "max_len": maxn, "flat_after_first": len(rows), "tolerance": FTOL})
+
+
 def long_records(ctx, nd):
     """Deterministic 900-step records with contiguous outages covering 10..90 %."""
     sub = "long_records"
@@ -250,7 +309,7 @@ def accessor(ctx, letters, nd):
             res = da.hdc.algo.autocorr()
             got = np.asarray(res.transpose("y", "x").values).reshape(N).astype(np.float64)
             ctx.count(sub, evaluations=N, nontrivial=int(ok.sum()) if name == "yxt numpy" else 0)
-            bad = np.abs(got - ref) > 1e-5
+            bad = ~(np.abs(got - ref) <= 1e-5)
             if res.dtype != np.float32:
                 ctx.violation(sub, {"accessor": "autocorr", "variant": name, "what": "dtype"}, {"kind": "acc", "variant": name}, f"autocorr() [{name}] dtype {res.dtype}")
             for j in np.nonzero(bad)[0][:3]:
@@ -265,7 +324,7 @@ def accessor(ctx, letters, nd):
                          ("nodata=0 yxt dask", dz.chunk({"y": 16, "x": 64, "time": -1})), ("nodata=0 tyx dask", dz.transpose("time", "y", "x").chunk({"time": -1, "y": 32, "x": 16}))):
             got = np.asarray(da.hdc.algo.autocorr().transpose("y", "x").values).reshape(N).astype(np.float64)
             ctx.count(sub, evaluations=N, nontrivial=int(okz.sum()) if name.endswith("yxt numpy") else 0)
-            bad = np.abs(got - refz) > 1e-5
+            bad = ~(np.abs(got - refz) <= 1e-5)
             for j in np.nonzero(bad)[0][:3]:
                 ctx.violation(sub, {"accessor": "autocorr", "variant": name, "word": valz[j].tolist()}, {"kind": "acc", "variant": name},
                               f"hdc.algo.autocorr() [{name}] pixel {valz[j].tolist()} (0 = nodata) -> {got[j]:.6f}, reference {refz[j]:.6f}")
@@ -275,7 +334,7 @@ def accessor(ctx, letters, nd):
         for name, da in (("float yxt", daf), ("float tyx", daf.transpose("time", "y", "x"))):
             got = np.asarray(da.hdc.algo.autocorr().transpose("y", "x").values).reshape(N).astype(np.float64)
             ctx.count(sub, evaluations=N)
-            bad = np.abs(got - ref) > 1e-5
+            bad = ~(np.abs(got - ref) <= 1e-5)
             for j in np.nonzero(bad)[0][:3]:
                 ctx.violation(sub, {"accessor": "autocorr", "variant": name, "word": vals[j].tolist()}, {"kind": "acc", "variant": name},
                               f"hdc.algo.autocorr() [{name}] pixel {vf[j].tolist()} -> {got[j]:.6f}, reference {ref[j]:.6f}")
@@ -297,6 +356,7 @@ def run(ctx):
     ctx.note("max_len", maxn)
     long_records(ctx, -9999)
     plateaus(ctx, -9999)
+    fractional_floats(ctx)
     accessor(ctx, letters, nd)
 
 
@@ -310,5 +370,8 @@ def replay(sub, case, p):
             g2 = impl_int(np.where(valid, vals * a + b, case["nd"]).astype("int16"), case["nd"])
             if abs(g2[0] - got[0]) > TOL:
                 p.violation(sub, {}, case, f"affine map changes the value: {got[0]} vs {g2[0]}")
+    elif case["kind"] == "frac":
+        p.thorough = lambda: False
+        fractional_floats(p)
     else:
         accessor(p, letters_for(0), -1)
